@@ -10,7 +10,7 @@ import shutil
 import subprocess
 from fractions import Fraction
 
-from ..alg import Lin, Q, MQ, Poly
+from ..alg import Lin, Q, MQ, Poly, is_zero
 from ..repo import AnalysisError, dotted, norm_text, FuncInfo
 from ..xeval import Interp, XObj, Opaque, XRaise, Uninterpretable, _NpAttr
 
@@ -156,6 +156,7 @@ def extract(repo, ci):
 
 
 def run(ctx):
+    kinematics_rule(ctx)
     # 'over arbitrarily many steps': no memo of the step-start state survives the end of the step
     from ..shared import memo_rule as _memo_rule, cached_param_rule as _cached_param_rule
 
@@ -554,3 +555,98 @@ def thickness_degree_rule(ctx):
             r.fail(f.qualname, f"thickness-degree:{name}", f.file, f.lineno, name, f"{bad or 'no returned array found'}: in 2-D the tangent, residual and damping arrays must each carry the thickness exactly once in every term (otherwise the tangent is not the derivative of the residual for thickness != 1)")
         else:
             r.ok(f"{name}: {narr} returned arrays of thickness degree 1")
+
+
+# ---------------------------------------------------------------------------
+# R18.11  kinematics: Green-Lagrange strain and its operators De / Deta as polynomial identities in the gradient
+# ---------------------------------------------------------------------------
+
+
+def kinematics_rule(ctx):
+    """E = 1/2 (F^T F - I) with F = I + grad u; De = d e / d flat(grad u) with e the Kelvin-Mandel vector of E (so that
+    the element residual B^T De^T S is the derivative of the stored energy and the material tangent uses the same
+    operator); Deta = d (De . flat(grad v)) / d flat(grad u).  Compute_F / Compute_C / Compute_GreenLagrange /
+    Compute_De / Compute_Deta are interpreted with a symbolic displacement gradient in 2-D and 3-D."""
+    from types import SimpleNamespace
+
+    from ..femchain import XFe, fe_hook_full
+    from ..xarray import XArray
+    from ..alg import MQ
+
+    repo = ctx.repo
+    r = ctx.rule("R18.11", "finite-strain kinematics: Compute_GreenLagrange == 1/2 (F^T F - I) with F = I + grad u; Compute_De == d(Kelvin-Mandel(E)) / d flat(grad u); Compute_Deta == d(De . flat(grad v)) / d flat(grad u) -- polynomial identities in the gradient entries, 2-D and 3-D", min_instances=6)
+    st = repo.cls("EasyFEA.Models.HyperElastic._state.HyperElasticState")
+    s2 = MQ.sqrt(2)
+    for dim in (2, 3):
+        g = [[Poly.var(f"g{i}{j}") if i < dim and j < dim else Poly() for j in range(3)] for i in range(3)]
+        v = [[Poly.var(f"v{i}{j}") if i < dim and j < dim else Poly() for j in range(3)] for i in range(3)]
+        marker_u, marker_v = XArray((1,), [Q(0)]), XArray((1,), [Q(1)])
+
+        def grad(field, mt=None, g=g, v=v, marker_v=marker_v):
+            m = v if field is marker_v else g
+            return XFe((1, 1, 3, 3), [m[i][j] for i in range(3) for j in range(3)])
+
+        ge = SimpleNamespace(Ne=1, Ncoords=1, Get_Gradient_e_pg=grad, Get_N_pg=lambda mt=None: XArray((1, 1, 1), [Q(1)]))
+        obj = XObj(st, {st.mangle("__groupElem"): ge, st.mangle("__displacement"): marker_u, st.mangle("__matrixType"): Opaque("mt"), "_GetDims": lambda dim=dim: (1, 1, dim)})
+        I = Interp(repo)
+        I.call_hook = fe_hook_full
+        fE, fDe, fDeta = st.methods["Compute_GreenLagrange"], st.methods["Compute_De"], st.methods["Compute_Deta"]
+        # ---- E
+        r.instance(fn=fE.qualname)
+        try:
+            E = XArray.from_nested(I.call_function(fE, [], self_obj=obj))
+        except XRaise as e:
+            r.fail(fE.qualname, f"E:dim{dim}", fE.file, fE.lineno, "Compute_GreenLagrange", f"dim {dim}: raises {e}")
+            continue
+        F = [[(Poly.const(1) if i == j else Poly()) + g[i][j] for j in range(3)] for i in range(3)]
+        wantE = [[(sum((F[k][i] * F[k][j] for k in range(3)), Poly()) - (1 if i == j else 0)) * Q(1, 2) for j in range(3)] for i in range(3)]
+        bad = [(i, j) for i in range(3) for j in range(3) if not is_zero(Poly.of(E[0, 0, i, j]) - wantE[i][j])]
+        if bad:
+            i, j = bad[0]
+            r.fail(fE.qualname, f"E:dim{dim}", fE.file, fE.lineno, "Compute_GreenLagrange", f"dim {dim}: E[{i}][{j}] = {E[0, 0, i, j]!r}, expected 1/2 (F^T F - I) = {wantE[i][j]!r}")
+            continue
+        r.ok(f"dim {dim}: E == 1/2 (F^T F - I)")
+        pairs = [(0, 0), (1, 1), (0, 1)] if dim == 2 else [(0, 0), (1, 1), (2, 2), (1, 2), (0, 2), (0, 1)]
+        kel = [wantE[a][b] * (s2 if a != b else 1) for a, b in pairs]
+        # ---- De
+        r.instance(fn=fDe.qualname)
+        try:
+            De = XArray.from_nested(I.call_function(fDe, [], self_obj=obj))
+        except XRaise as e:
+            r.fail(fDe.qualname, f"De:dim{dim}", fDe.file, fDe.lineno, "Compute_De", f"dim {dim}: raises {e}")
+            continue
+        if De.shape != (1, 1, len(pairs), dim * dim):
+            r.fail(fDe.qualname, f"De:dim{dim}", fDe.file, fDe.lineno, "Compute_De", f"dim {dim}: shape {De.shape}")
+            continue
+        bad = None
+        for rr in range(len(pairs)):
+            for i in range(dim):
+                for j in range(dim):
+                    want = kel[rr].diff(f"g{i}{j}")
+                    got = Poly.of(De[0, 0, rr, i * dim + j])
+                    if not is_zero(got - want):
+                        bad = f"De[{rr}][{i}*{dim}+{j}] = {got!r}, expected d e_{rr} / d(grad u)_{i}{j} = {want!r}"
+        if bad:
+            r.fail(fDe.qualname, f"De:dim{dim}", fDe.file, fDe.lineno, "Compute_De", f"dim {dim}: {bad}: the residual B^T De^T S is not the derivative of the stored energy")
+        else:
+            r.ok(f"dim {dim}: De == d e / d flat(grad u) ({len(pairs)} x {dim * dim} entries)")
+        # ---- Deta
+        r.instance(fn=fDeta.qualname)
+        try:
+            Dn = XArray.from_nested(I.call_function(fDeta, [marker_v], self_obj=obj))
+        except XRaise as e:
+            r.fail(fDeta.qualname, f"Deta:dim{dim}", fDeta.file, fDeta.lineno, "Compute_Deta", f"dim {dim}: raises {e}")
+            continue
+        bad = None
+        for rr in range(len(pairs)):
+            edot = sum((kel[rr].diff(f"g{k}{l}") * v[k][l] for k in range(dim) for l in range(dim)), Poly())
+            for i in range(dim):
+                for j in range(dim):
+                    want = edot.diff(f"g{i}{j}")
+                    got = Poly.of(Dn[0, 0, rr, i * dim + j])
+                    if not is_zero(got - want):
+                        bad = f"Deta[{rr}][{i}*{dim}+{j}] = {got!r}, expected {want!r}"
+        if bad:
+            r.fail(fDeta.qualname, f"Deta:dim{dim}", fDeta.file, fDeta.lineno, "Compute_Deta", f"dim {dim}: {bad}")
+        else:
+            r.ok(f"dim {dim}: Deta == d(De . flat(grad v)) / d flat(grad u)")
